@@ -20,8 +20,9 @@ BOUNDS = ("NOT real thread schedules. The printcore object is a recording stub; 
           "per line: inside device.send() (the reply overtakes write()) or when write() blocks in "
           "Event.wait() (the reply is late). Cell grid: 2-3 statements x reply script per statement "
           "(ok; status report then ok; report carried by the ok line; error; alarm after a report; "
-          "a printrun error callback). Solver over: the delivery point of every line (2^n "
-          "schedules, order of lines preserved). Checked after every write(): the device received "
+          "a printrun error callback). Solver over: the delivery point of every line (early / "
+          "when blocked / only after any finite timeout; order of lines preserved); an alarm may also "
+          "arrive between two statements. Checked after every write(): the device received "
           "exactly the statements written so far, in order, unmodified; write() returned only "
           "after the line acknowledging THAT statement had been delivered (never released by a "
           "status line, never blocked although the acknowledgement had arrived); an error/alarm/!! "
@@ -48,7 +49,7 @@ class WouldBlock(Exception):
 class FakeEvent:
     def __init__(self):
         self.flag = False
-        self.on_wait = lambda: None
+        self.on_wait = lambda timeout=None: None
         self.waits = 0
 
     def set(self):
@@ -64,8 +65,10 @@ class FakeEvent:
         self.waits += 1
         if self.flag:
             return True           # already set: a real wait() returns at once, the reader does not run
-        self.on_wait()            # write() blocks: the reader thread gets to run
+        self.on_wait(timeout)     # write() blocks: the reader thread gets to run
         if not self.flag:
+            if timeout is not None:
+                return False      # a finite wait gives up before a very late reply
             raise WouldBlock()
         return True
 
@@ -104,6 +107,9 @@ SCRIPTS = {
     "report-alarm": [("<Alarm|MPos:0.000,0.000,0.000|FS:0,0>", "info"), ("ALARM:1", "err")],
     "bang": [("!! Printer halted. kill() called!", "err")],
     "printrun-error": [("Can't write to printer (disconnected?)", "perr")],
+    # an alarm that arrives after the statement was acknowledged, while no write() is waiting:
+    # the NEXT write must raise it
+    "ok-then-alarm": [("ok", "ack"), ("ALARM:2", "between")],
 }
 EXPECT_READING = {"report-ok": ("X", 1.5), "ok-with-report": ("T", 201.5)}
 
@@ -111,7 +117,7 @@ EXPECT_READING = {"report-ok": ("X", 1.5), "ok-with-report": ("T", 201.5)}
 def _make(script_names):
     n_lines = sum(len(SCRIPTS[s]) for s in script_names)
 
-    def core(early):
+    def core(early, late):
         w = pw_mod.PrintrunWriter("serial", "host", "port", 250000)
         core_dev = FakeCore()
         w._device = core_dev
@@ -121,12 +127,17 @@ def _make(script_names):
         pending = []          # lines of the current statement not yet delivered: (line, kind, early?)
         delivered_kinds = []
 
-        def deliver(now_waiting):
+        def deliver(now_waiting, timeout=None):
             # the reader delivers lines in order; a line scheduled for the blocking point holds
-            # back everything after it until write() blocks
+            # back everything after it until write() blocks; a 'very late' line arrives only
+            # after any finite timeout (an unbounded wait still gets it)
             while pending:
-                line, kind, is_early = pending[0]
+                line, kind, is_early, very_late = pending[0]
+                if kind == "between":
+                    break                      # delivered after write() has returned
                 if not now_waiting and not is_early:
+                    break
+                if now_waiting and very_late and timeout is not None:
                     break
                 pending.pop(0)
                 if kind == "perr":
@@ -136,19 +147,21 @@ def _make(script_names):
                 delivered_kinds.append(kind)
 
         core_dev.on_send = lambda: deliver(False)
-        ev.on_wait = lambda: deliver(True)
+        ev.on_wait = lambda timeout=None: deliver(True, timeout)
         bit = 0
+        owed_error = False        # an error line arrived while no write() was waiting
         for k, (stmt, sname) in enumerate(zip(statements, script_names)):
-            script = SCRIPTS[sname]
-            pending[:] = [(line, kind, early[bit + i]) for i, (line, kind) in enumerate(script)]
-            bit += len(script)
+            script = [x for x in SCRIPTS[sname] if x[1] != "between"]
+            after = [x for x in SCRIPTS[sname] if x[1] == "between"]
+            pending[:] = [(line, kind, early[bit + i], late[bit + i]) for i, (line, kind) in enumerate(script)]
+            bit += len(SCRIPTS[sname])
             del delivered_kinds[:]
             raised = None
             try:
                 w.write((stmt + "\n").encode("utf-8"))
             except Exception as e:  # noqa: BLE001
                 raised = e
-            ctx = lambda: (f"statement {k} {stmt!r} with replies {script!r}, early={early!r}: "  # noqa: E731
+            ctx = lambda: (f"statement {k} {stmt!r} with replies {script!r}, early={early!r} very_late={late!r}: "  # noqa: E731
                            f"sent={core_dev.sent!r} delivered={delivered_kinds!r} raised={raised!r}")
             if isinstance(raised, WouldBlock) or (raised is not None and isinstance(
                     getattr(raised, "__cause__", None), WouldBlock)):
@@ -158,12 +171,17 @@ def _make(script_names):
             final_kind = script[-1][1]
             if not delivered_kinds or delivered_kinds[-1] != final_kind or pending:
                 return V("write-returned-before-its-acknowledgement", ctx)
-            if final_kind in ("err", "perr"):
+            if final_kind in ("err", "perr") or owed_error:
+                owed_error = False
                 if raised is None or type(raised).__name__ != "DeviceError":
                     return V("device-error-not-raised-by-write", ctx)
             elif raised is not None:
                 name = type(raised).__name__
                 return V("write-raised-on-an-acknowledged-statement", lambda: f"{name}; {ctx()}")
+            for line, _kind in after:       # unsolicited lines between two statements
+                w._on_device_message(line + "\n")
+                if line.lower().startswith(("error", "alarm", "!!")):
+                    owed_error = True
             if sname in EXPECT_READING:
                 key, val = EXPECT_READING[sname]
                 got = w.get_parameter(key)
@@ -173,8 +191,9 @@ def _make(script_names):
         reached("done")
         return None
 
-    params = [f"e{i}" for i in range(n_lines)]
-    src = f"def h({', '.join(params)}):\n    return core([{', '.join(params)}])\n"
+    params = [f"e{i}" for i in range(n_lines)] + [f"l{i}" for i in range(n_lines)]
+    src = (f"def h({', '.join(params)}):\n"
+           f"    return core([{', '.join(params[:n_lines])}], [{', '.join(params[n_lines:])}])\n")
     ns = {"core": core}
     exec(src, ns)
     h = ns["h"]
